@@ -19,15 +19,116 @@ func (c *Ctx) acImpls() []*types.Named {
 
 // identityDerived: values derived from entry.GetIdentity() results inside f.
 func (c *Ctx) identityCalls(f *ssa.Function) []ssa.Value {
+	return c.identityCallsD(f, 0)
+}
+
+func isIdentityPtr(t types.Type) bool {
+	p, ok := t.(*types.Pointer)
+	return ok && strings.HasSuffix(typeStr(p.Elem()), "identityprovider.Identity")
+}
+
+// identityCallsD: the values in f that are the identity an entry names: results of
+// GetIdentity(), and identities handed back by a repo helper that obtained them that way.
+func (c *Ctx) identityCallsD(f *ssa.Function, depth int) []ssa.Value {
 	var out []ssa.Value
 	eachCall(f, func(call ssa.CallInstruction) {
-		if methodName(call) == "GetIdentity" && call.Value() != nil {
-			if p, ok := call.Value().Type().(*types.Pointer); ok && strings.HasSuffix(typeStr(p.Elem()), "identityprovider.Identity") {
+		if call.Value() == nil {
+			return
+		}
+		if methodName(call) == "GetIdentity" {
+			if isIdentityPtr(call.Value().Type()) {
 				out = append(out, call.Value())
+			}
+			return
+		}
+		h := call.Common().StaticCallee()
+		if h == nil || h.Blocks == nil || h.Pkg == nil || !inRepo(h.Pkg.Pkg) || depth >= 2 {
+			return
+		}
+		res := h.Signature.Results()
+		for i := 0; i < res.Len(); i++ {
+			if !isIdentityPtr(res.At(i).Type()) {
+				continue
+			}
+			inner := c.identityCallsD(h, depth+1)
+			if len(inner) == 0 {
+				continue
+			}
+			dh := derived(inner, flowOpts{})
+			returned := false
+			eachInstr(h, func(in ssa.Instruction) {
+				if r, ok := in.(*ssa.Return); ok && i < len(r.Results) {
+					if dh[r.Results[i]] {
+						returned = true
+					}
+					for _, y := range resolveSpill(r.Results[i]) {
+						if dh[y] {
+							returned = true
+						}
+					}
+				}
+			})
+			if !returned {
+				continue
+			}
+			if res.Len() == 1 {
+				out = append(out, call.Value())
+				continue
+			}
+			if refs := call.Value().Referrers(); refs != nil {
+				for _, r := range *refs {
+					if ex, ok := r.(*ssa.Extract); ok && ex.Index == i {
+						out = append(out, ex)
+					}
+				}
 			}
 		}
 	})
 	return out
+}
+
+// identityNonNilFromHelper: id is an identity handed back by a repo helper together with an
+// error; the helper never returns a nil identity with a nil error, and b is only reached when
+// that error was nil.
+func (c *Ctx) identityNonNilFromHelper(id ssa.Value, b *ssa.BasicBlock) bool {
+	ex, ok := id.(*ssa.Extract)
+	if !ok {
+		return false
+	}
+	call, ok := ex.Tuple.(*ssa.Call)
+	if !ok {
+		return false
+	}
+	h := call.Call.StaticCallee()
+	if h == nil || h.Blocks == nil {
+		return false
+	}
+	ev := errResult(call)
+	if ev == nil {
+		return false
+	}
+	covered := false
+	for _, t := range errTests(ev) {
+		if t.Ok != nil && branchCovers(t.Ok, b) {
+			covered = true
+		}
+	}
+	if !covered {
+		return false
+	}
+	okAll := true
+	eachInstr(h, func(in ssa.Instruction) {
+		r, isRet := in.(*ssa.Return)
+		if !isRet || isFailureReturn(r) || ex.Index >= len(r.Results) {
+			return
+		}
+		for _, v := range resolveSpill(r.Results[ex.Index]) {
+			if isNilConst(v) || !nonNilAt(v, r.Block()) {
+				okAll = false
+			}
+		}
+	})
+	return okAll
 }
 
 func (c *Ctx) isVerifyIdentity(call ssa.CallInstruction) bool {
@@ -66,15 +167,15 @@ func acceptReturn(in ssa.Instruction) bool {
 	return !isFailureReturn(r)
 }
 
-func (c *Ctx) ruleA1A3(f *ssa.Function, tn string) {
-	ids := c.identityCalls(f)
-	dID := derived(ids, flowOpts{})
-	// membership comparisons: identity-id == <list element>, or <list element> == "*"
-	type mcmp struct {
-		bo  *ssa.BinOp
-		iff *ssa.If
-	}
-	var members []mcmp
+type memberTest struct {
+	iff      *ssa.If
+	trueEdge int
+}
+
+// membershipTests: comparisons in f of a string derived from the identity (d) with something
+// that is not a constant, or of something not derived from it with the wildcard.
+func membershipTests(f *ssa.Function, d map[ssa.Value]bool) []memberTest {
+	var out []memberTest
 	eachInstr(f, func(in ssa.Instruction) {
 		bo, ok := in.(*ssa.BinOp)
 		if !ok || (bo.Op != token.EQL && bo.Op != token.NEQ) {
@@ -85,12 +186,12 @@ func (c *Ctx) ruleA1A3(f *ssa.Function, tn string) {
 		}
 		isMember := false
 		for _, pr := range [][2]ssa.Value{{bo.X, bo.Y}, {bo.Y, bo.X}} {
-			if dID[pr[0]] {
+			if d[pr[0]] {
 				if _, isConst := pr[1].(*ssa.Const); !isConst {
 					isMember = true
 				}
 			}
-			if s, ok := constString(pr[1]); ok && s == "*" && !dID[pr[0]] {
+			if s, ok := constString(pr[1]); ok && s == "*" && !d[pr[0]] {
 				isMember = true
 			}
 		}
@@ -99,8 +200,92 @@ func (c *Ctx) ruleA1A3(f *ssa.Function, tn string) {
 		}
 		for _, r := range *bo.Referrers() {
 			if iff, ok := r.(*ssa.If); ok {
-				members = append(members, mcmp{bo, iff})
+				e := 0
+				if bo.Op == token.NEQ {
+					e = 1
+				}
+				out = append(out, memberTest{iff, e})
 			}
+		}
+	})
+	return out
+}
+
+func (c *Ctx) ruleA1A3(f *ssa.Function, tn string) {
+	ids := c.identityCalls(f)
+	dID := derived(ids, flowOpts{})
+	// membership comparisons: identity-id == <list element>, or <list element> == "*"; or a
+	// repo predicate given the identity's id whose every possibly-true return lies behind one
+	type mcmp struct {
+		iff      *ssa.If
+		trueEdge int
+	}
+	var members []mcmp
+	for _, m := range membershipTests(f, dID) {
+		members = append(members, mcmp{m.iff, m.trueEdge})
+	}
+	eachInstr(f, func(in ssa.Instruction) {
+		iff, ok := in.(*ssa.If)
+		if !ok {
+			return
+		}
+		cond := iff.Cond
+		edge := 0
+		for {
+			u, ok := cond.(*ssa.UnOp)
+			if !ok || u.Op != token.NOT {
+				break
+			}
+			cond, edge = u.X, 1-edge
+		}
+		call, ok := cond.(*ssa.Call)
+		if !ok {
+			return
+		}
+		h := call.Call.StaticCallee()
+		if h == nil || h.Blocks == nil || h.Pkg == nil || !inRepo(h.Pkg.Pkg) {
+			return
+		}
+		if h.Signature.Results().Len() != 1 || typeStr(h.Signature.Results().At(0).Type()) != "bool" {
+			return
+		}
+		var ps []ssa.Value
+		for i, a := range call.Call.Args {
+			if dID[a] && i < len(h.Params) {
+				ps = append(ps, h.Params[i])
+			}
+		}
+		if len(ps) == 0 {
+			return
+		}
+		dh := derived(ps, flowOpts{})
+		inner := membershipTests(h, dh)
+		if len(inner) == 0 {
+			return
+		}
+		cutH := func(b *ssa.BasicBlock, si int) bool {
+			for _, m := range inner {
+				if m.iff.Block() == b {
+					return si == m.trueEdge
+				}
+			}
+			return false
+		}
+		mayBeTrue := func(x ssa.Instruction) bool {
+			r, ok := x.(*ssa.Return)
+			if !ok || len(r.Results) == 0 {
+				return false
+			}
+			for _, v := range resolveSpill(r.Results[0]) {
+				k, isK := v.(*ssa.Const)
+				if !isK || k.Value == nil || k.Value.ExactString() != "false" {
+					return true
+				}
+			}
+			return false
+		}
+		if hit, _ := findPath(h, entry, nil, mayBeTrue, cutH); hit == nil {
+			members = append(members, mcmp{iff, edge})
 		}
 	})
 	// A1(a): cut the edges on which a membership comparison holds; an accepting return
@@ -108,11 +293,7 @@ func (c *Ctx) ruleA1A3(f *ssa.Function, tn string) {
 	cut := func(b *ssa.BasicBlock, si int) bool {
 		for _, m := range members {
 			if m.iff.Block() == b {
-				trueEdge := 0
-				if m.bo.Op == token.NEQ {
-					trueEdge = 1
-				}
-				return si == trueEdge
+				return si == m.trueEdge
 			}
 		}
 		return false
@@ -394,6 +575,28 @@ func structLitFields(v ssa.Value) map[string]ssa.Value {
 	out := map[string]ssa.Value{}
 	a, ok := v.(*ssa.Alloc)
 	if !ok {
+		// a literal built by a repo constructor: `opts := b.emptyLogOptions()`
+		if call, isCall := v.(*ssa.Call); isCall {
+			if h := call.Call.StaticCallee(); h != nil && h.Blocks != nil && h.Pkg != nil && inRepo(h.Pkg.Pkg) {
+				var found map[string]ssa.Value
+				eachInstr(h, func(in ssa.Instruction) {
+					r, ok := in.(*ssa.Return)
+					if !ok || len(r.Results) == 0 || found != nil {
+						return
+					}
+					for _, rv := range resolveSpill(r.Results[0]) {
+						if al, ok := rv.(*ssa.Alloc); ok {
+							if m := structLitFields(al); len(m) > 0 {
+								found = m
+							}
+						}
+					}
+				})
+				if found != nil {
+					return found
+				}
+			}
+		}
 		return out
 	}
 	for _, r := range *a.Referrers() {
@@ -565,13 +768,36 @@ func (c *Ctx) ruleA4() {
 		if f.Parent() != nil || c.isTestFile(f.Pos()) {
 			continue
 		}
+		// the decoded manifest: a literal decoded into here, or what a same-package reader returns
 		var manifest ssa.Value
 		eachInstr(f, func(in ssa.Instruction) {
 			if a, ok := in.(*ssa.Alloc); ok && strings.HasSuffix(typeStr(a.Type()), "utils.Manifest") {
 				manifest = a
 			}
+			if ex, ok := in.(*ssa.Extract); ok && strings.HasSuffix(typeStr(ex.Type()), "utils.Manifest") {
+				if call, ok := ex.Tuple.(*ssa.Call); ok {
+					if h := call.Call.StaticCallee(); h != nil && h.Pkg == f.Pkg {
+						manifest = ex
+					}
+				}
+			}
 		})
 		if manifest == nil {
+			continue
+		}
+		// only the function that goes on to create the store is judged (a reader that merely
+		// returns the manifest is not)
+		createsStore := false
+		eachCall(f, func(x ssa.CallInstruction) {
+			if g := x.Common().StaticCallee(); g != nil && g.Pkg == f.Pkg {
+				eachCall(g, func(cc ssa.CallInstruction) {
+					if !cc.Common().IsInvoke() && cc.Common().StaticCallee() == nil && strings.HasSuffix(typeStr(cc.Common().Value.Type()), "iface.StoreConstructor") {
+						createsStore = true
+					}
+				})
+			}
+		})
+		if !createsStore {
 			continue
 		}
 		fk := fnKey(f)
@@ -1039,7 +1265,7 @@ func (c *Ctx) ruleN4(impls []*types.Named) {
 					if !c.isControlFn(f) {
 						nDeref++
 					}
-					if nonNilAt(id, in.Block()) {
+					if nonNilAt(id, in.Block()) || c.identityNonNilFromHelper(id, in.Block()) {
 						c.ok("N4", cons, pos, "GetIdentity() result is nil-tested before its field is read")
 					} else {
 						c.bad("N4", cons, pos, "the identity of an entry received from a peer or fetched from IPFS may be absent; reading a field of GetIdentity() without a nil test panics in CanAppend (reached from Sync and from Join)")
@@ -1181,7 +1407,7 @@ func (c *Ctx) ruleN4(impls []*types.Named) {
 						continue
 					}
 					in := r.(ssa.Instruction)
-					ds = append(ds, deref{pos, nonNilAt(v, in.Block()) || nonNilAt(id, in.Block())})
+					ds = append(ds, deref{pos, nonNilAt(v, in.Block()) || nonNilAt(id, in.Block()) || c.identityNonNilFromHelper(id, in.Block())})
 				}
 			}
 			sort.Slice(ds, func(i, j int) bool { return ds[i].pos < ds[j].pos })
